@@ -26,7 +26,7 @@ CHECKS = {
     "C01": dict(
         cat="model_checking", ref="5.C01",
         technique="TLA+ Grid spec (tiler design + OnGrid oracle) model-checked by TLC; Gen_Grid points replayed on the real volume-to-precomputed; recorded conversions (store_chunk coordinates, decoded voxels) trace-validated with an exact-rational value map",
-        text="TLC proves the tiler design writes every voxel exactly once from the same coordinate with every write on-grid (sizes 1..5 x chunk sizes 1..4 per axis, 1-3 channels; the no-clamp deviation fails); the enumerated (size, chunk, channels) points and seeded tool-generated and sharded sub-process conversions (3-D, 4-D, RGB; all dtype pairs; header scaling, --ignore-scaling, --input-min/max, --mmap; deep/flat x gzip x raw/compressed_segmentation x sharded) are run through the real volume-to-precomputed, read back through a fresh accessor + PrecomputedIO, and judged by Trace_Grid (OnGrid, Unwritten, VoxelValue with an exact-rational Map, ConversionRaised, ExitCode). Directed classes: --ignore-scaling on every header class (slope only / intercept only / both; full load and --mmap), header scalings whose results need more than float32's 24-bit mantissa, float64 inputs up to 2^30. About one conversion in eight runs into a destination that already holds another volume's conversion.",
+        text="TLC proves the tiler design writes every voxel exactly once from the same coordinate with every write on-grid (sizes 1..5 x chunk sizes 1..4 per axis, 1-3 channels; the no-clamp deviation fails); the enumerated (size, chunk, channels) points and seeded tool-generated and sharded sub-process conversions (3-D, 4-D, RGB; all dtype pairs; header scaling, --ignore-scaling, --input-min/max, --mmap; deep/flat x gzip x raw/compressed_segmentation x sharded) are run through the real volume-to-precomputed, read back through a fresh accessor + PrecomputedIO, and judged by Trace_Grid (OnGrid, Unwritten, VoxelValue with an exact-rational Map, ConversionRaised, ExitCode). Directed classes: --ignore-scaling on every header class (slope only / intercept only / both; full load and --mmap), header scalings whose results need more than float32's 24-bit mantissa, float64 inputs up to 2^30. About one conversion in eight runs into a destination that already holds another volume's conversion. The per-axis tiling lemma (every voxel in exactly one chunk, for every size and chunk size) is proved with the TLA+ proof system (spec/proofs/Tiler1D, 100 obligations) and re-run by the check.",
         note=TRUST + "; exact-arithmetic inputs only (integer/dyadic data and scalings); --input-max rescaling judged for uint8/uint16 targets; uint32/uint64 upper saturation left to C11; sharded outputs and compressed_segmentation use cubic chunks/blocks."),
     "C02": dict(
         cat="model_checking", ref="5.C02",
@@ -36,12 +36,12 @@ CHECKS = {
     "C03": dict(
         cat="model_checking", ref="5.C03",
         technique="TLA+ state machine of the dataset I/O layer (OnGrid oracle, validator design) model-checked by TLC; TLC-generated behaviours replayed on real PrecomputedIO x accessors x codecs and validated by a stateful trace spec; validator judged as a decision function",
-        text="TLC explores all write histories over valid and invalid candidate tuples on three infos and proves that only on-grid positions are stored, that the validator equals the oracle predicate and that a write touches only its own key; behaviours generated by TLC (invalid writes, reads, re-opens) run on the real PrecomputedIO over file (deep/flat x gzip) and sharded accessors, raw / compressed_segmentation / jpeg, all dtypes and 1-3 channels, with a final sweep through a fresh handle; every event is checked by Trace_ChunkStore (byte-exact read-your-writes, shape, dtype, bounded JPEG error); validate_chunk_coords is judged against OnGrid on ~10^4 structured and random 6-tuples per run. Datasets mixing encodings / block sizes between their scales, a dataset re-created in place after having been opened through the same accessor object (re-opens also on that same object), and arrays passed in a narrower safely-convertible type (values judged in the dataset's type).",
+        text="TLC explores all write histories over valid and invalid candidate tuples on three infos and proves that only on-grid positions are stored, that the validator equals the oracle predicate and that a write touches only its own key; behaviours generated by TLC (invalid writes, reads, re-opens) run on the real PrecomputedIO over file (deep/flat x gzip) and sharded accessors, raw / compressed_segmentation / jpeg, all dtypes and 1-3 channels, with a final sweep through a fresh handle; every event is checked by Trace_ChunkStore (byte-exact read-your-writes, shape, dtype, bounded JPEG error); validate_chunk_coords is judged against OnGrid on ~10^4 structured and random 6-tuples per run. Datasets mixing encodings / block sizes between their scales, a dataset re-created in place after having been opened through the same accessor object (re-opens also on that same object), and arrays passed in a narrower safely-convertible type (values judged in the dataset's type). A second configuration without the operation counter in the state VIEW visits every reachable store state (histories of any length).",
         note=TRUST + "; JPEG tolerance constants (mean<=8, max<=64) are part of the spec; never-written reads unconstrained."),
     "C06": dict(
         cat="model_checking", ref="5.C06",
         technique="TLA+ per-axis octant-assembly model (NumPy assignment semantics, provenance) model-checked by TLC; TLC-exported outcome classes and real-generator infos replayed on the real pyramid code with poisoned np.empty; level and provenance traces validated by the trace spec",
-        text="TLC explores the per-axis octant-assembly model (old sizes 1..40, old/new chunk in {1,2,4,8,16}, factor 1|2) and proves the outcome classes, Correct => level = global downscale (provenance and value level), the closed form and the 2-D factorisation; every class and infos from the real generator are run through the real compute_dyadic_scales twice with np.empty poisoned by two different patterns (3 downscaling methods, 1-3 channels, raw/compressed_segmentation, deep/flat/gzip/sharded) and each transition is judged by Trace_PyramidAssembly against the implementation's own downscaler applied to the whole stored previous level; provenance traces through recording reader/writer objects on coordinate-coded volumes. Source-fault class (a chunk of the preceding scale missing or damaged before the step: oracle:FailsInsteadOfWrongData), the compute-scales command-line entry point with its options, and the 'auto' method with an outside value (TLC applies the documented selection rule; the reference downscaler is built without get_downscaler).",
+        text="TLC explores the per-axis octant-assembly model (old sizes 1..40, old/new chunk in {1,2,4,8,16}, factor 1|2) and proves the outcome classes, Correct => level = global downscale (provenance and value level), the closed form and the 2-D factorisation; every class and infos from the real generator are run through the real compute_dyadic_scales twice with np.empty poisoned by two different patterns (3 downscaling methods, 1-3 channels, raw/compressed_segmentation, deep/flat/gzip/sharded) and each transition is judged by Trace_PyramidAssembly against the implementation's own downscaler applied to the whole stored previous level; provenance traces through recording reader/writer objects on coordinate-coded volumes. Source-fault class (a chunk of the preceding scale missing or damaged before the step: oracle:FailsInsteadOfWrongData), the compute-scales command-line entry point with its options, and the 'auto' method with an outside value (TLC applies the documented selection rule; the reference downscaler is built without get_downscaler). Downscaler objects are shared between pyramids of different data types; unprocessable infos go through compute-scales main(argv) (status 0 with a missing or wrong level is a violation); the all-in-one entry point runs with --type and the default method. The lemma ceil(ceil(n/a)/b) = ceil(n/(a*b)) is proved with the TLA+ proof system (spec/proofs/CeilHalving, 91 obligations) and re-run by the check.",
         note=TRUST + "; silent corruption is a verdict only for infos the real generator produced or pairs processable by design; hand-made incompatible pairs may raise."),
     "C07": dict(
         cat="model_checking", ref="5.C07",
@@ -66,17 +66,17 @@ CHECKS = {
     "C11": dict(
         cat="model_checking", ref="5.C11",
         technique="TLA+ oracle Convert (nearest representable, ties-to-even, saturating) on exact bit-sequence values, validated by TLC on scaled-down types; real get_chunk_dtype_transformer results for all dtype pairs, both buffer modes and memory layouts judged by the TLC trace spec",
-        text="TLC proves on scaled-down types (3- and 4-bit signed/unsigned integers, a toy float) that the oracle Convert is the nearest-representable function with ties to even, monotone, idempotent and saturating; the real transformer is then run on all (int8..uint64, float32, float64) x (uint8, uint16, uint32, uint64, float32) pairs with anchor values (limits of both types +- {0, 1/2, 1, 3/2}, 2^24, 2^53 +- 1, halves) and random values, in both preserve_input modes and on contiguous, strided, Fortran-ordered and read-only inputs; input bits before/after and output bits are judged by TLC (Nearest, InputModified, ModeDependent, Raised).",
+        text="TLC proves on scaled-down types (3- and 4-bit signed/unsigned integers, a toy float) that the oracle Convert is the nearest-representable function with ties to even, monotone, idempotent and saturating; the real transformer is then run on all (int8..uint64, float32, float64) x (uint8, uint16, uint32, uint64, float32) pairs with anchor values (limits of both types +- {0, 1/2, 1, 3/2}, 2^24, 2^53 +- 1, halves) and random values, in both preserve_input modes and on contiguous, strided, Fortran-ordered and read-only inputs; input bits before/after and output bits are judged by TLC (Nearest, InputModified, ModeDependent, Raised). Every multi-byte input type also runs in non-native byte order (transformer built from the swapped dtype, swapped chunk, or both).",
         note=TRUST + "; exact values are obtained from float.hex()/int (no decimal rounding)."),
     "C12": dict(
         cat="model_checking", ref="5.C12",
         technique="TLA+ state machine of the file accessor (paths, gzip/MIME rules, probe order, ghost 'latest' variables) model-checked by TLC; TLC-generated and random store histories replayed on real accessors and validated step by step by a stateful trace spec; confinement probes for both file accessors",
-        text="TLC explores all store histories up to the bound under the four writer configurations and proves LastWriteWins / NoOverwrite / PathsDocumented for the design (and shows the mixed-MIME deviation breaks them); TLC-simulated behaviours and longer random histories run on real FileAccessor objects, and after every step the directory tree (strict independent gzip inflate), every name and every chunk through all four reader configurations are recorded and checked by Trace_FileStore; path-confinement probes (.., nested .., absolute) for FileAccessor and ShardedFileAccessor. Names include two siblings that differ only in their last extension; payload versions include a same-length overwrite.",
+        text="TLC explores all store histories up to the bound under the four writer configurations and proves LastWriteWins / NoOverwrite / PathsDocumented for the design (and shows the mixed-MIME deviation breaks them); TLC-simulated behaviours and longer random histories run on real FileAccessor objects, and after every step the directory tree (strict independent gzip inflate), every name and every chunk through all four reader configurations are recorded and checked by Trace_FileStore; path-confinement probes (.., nested .., absolute) for FileAccessor and ShardedFileAccessor. Names include two siblings that differ only in their last extension; payload versions include a same-length overwrite. A second configuration without the operation counter in the state VIEW visits every reachable storage state (histories of any length).",
         note=TRUST + "; known finding: same name stored with MIME types of different compressibility (see known_findings.json)."),
     "C13": dict(
         cat="model_checking", ref="5.C13",
         technique="TLA+ command state machine (Pipeline) model-checked by TLC; conversion programs built by the real tools and run as sub-processes (incl. loopback HTTP and sharded sources); per-command snapshots judged by the stateful trace spec",
-        text="TLC explores the command-level design (one action per documented command, abstract contents) and proves ConvertPreserves, SourceUntouched and SuccessMeansComplete on every program of the bounded alphabet; 67 conversion classes (same type across encodings, raw<->compressed_segmentation, all widenings, rounding/clipping, unsharded<->sharded in every pairing, --copy-info, 2-3 channels, fewer destination scales, other chunk sizes, labels beyond 2^31/2^53/2^63, HTTP sources, repeated conversion) are built by the real tools and converted by convert-chunks as a real sub-process; destination = Convert(source) at every scale and chunk, source tree hash unchanged, exit 0 => complete - judged by Trace_Pipeline.",
+        text="TLC explores the command-level design (one action per documented command, abstract contents) and proves ConvertPreserves, SourceUntouched and SuccessMeansComplete on every program of the bounded alphabet; 67 conversion classes (same type across encodings, raw<->compressed_segmentation, all widenings, rounding/clipping, unsharded<->sharded in every pairing, --copy-info, 2-3 channels, fewer destination scales, other chunk sizes, labels beyond 2^31/2^53/2^63, HTTP sources, repeated conversion) are built by the real tools and converted by convert-chunks as a real sub-process; destination = Convert(source) at every scale and chunk, source tree hash unchanged, exit 0 => complete - judged by Trace_Pipeline. Every declared chunking of every scale is judged; sharded destinations are re-read by a format-following reader in TLC (ConvertSpecReaderDiffers), also with per-scale different sharding specs; sources include remote (loopback HTTP) sharded multi-scale datasets; environment classes obstruct chunk / shard / scale paths; function-API conversion pairs run in one interpreter.",
         note=TRUST + "; a non-zero exit makes no claim on the destination (recorded as DRIFT); voxel equality is decided by TLC on exactly re-encoded, interned arrays."),
     "C14": dict(
         cat="model_checking", ref="5.C14",
@@ -106,12 +106,12 @@ CHECKS = {
     "C19": dict(
         cat="model_checking", ref="5.C19",
         technique="TLA+ command state machine model-checked by TLC on every program of bounded length; TLC-exported witness programs replayed as real sub-processes; stateful trace validation of per-command snapshots (oracle -> VIOLATION, design -> DRIFT)",
-        text="TLC explores the command-level design (GenInfo, GenScales, VolToPrecomputed, ComputeScales, ConvertChunks, ScaleStats, AllInOne, hand edit of an info) on every program of length <= 6 over two directories and option alphabets and proves AllInOneEqualsSteps, RepeatIsNoop, SuccessMeansComplete, SourceUntouched (both deviation switches fail as required); TLC-exported witness programs (one per abstract situation) are run as real sub-processes on synthetic volumes (uint8..uint64, float32, int16/float64, 2-3 channels, RGB, 1-3 scales, four file layouts, sharded) and every per-command snapshot (exit code, info, all decoded chunks, tree hashes) is judged by Trace_Pipeline.",
+        text="TLC explores the command-level design (GenInfo, GenScales, VolToPrecomputed, ComputeScales, ConvertChunks, ScaleStats, AllInOne, hand edit of an info) on every program of length <= 6 over two directories and option alphabets and proves AllInOneEqualsSteps, RepeatIsNoop, SuccessMeansComplete, SourceUntouched (both deviation switches fail as required); TLC-exported witness programs (one per abstract situation) are run as real sub-processes on synthetic volumes (uint8..uint64, float32, int16/float64, 2-3 channels, RGB, 1-3 scales, four file layouts, sharded) and every per-command snapshot (exit code, info, all decoded chunks, tree hashes) is judged by Trace_Pipeline. Programs include slices-to-precomputed, header-scaled inputs with --ignore-scaling, --input-max option sets, the all-in-one command on existing infos, repeated generate-scales-info with other parameters (SuccessButWrongInfo) and obstructed destinations.",
         note=TRUST + "; content ids are abstract in the model, voxel equality is decided by TLC on exactly re-encoded arrays; stratified seeded sample of exported programs (33 quick / 600 thorough)."),
     "C20": dict(
         cat="model_checking", ref="5.C20",
         technique="TLA+ oracle for the human-readable formatter on bit-sequence counts (Stats) and for the statistics report (Pipeline); integer bands through the real readable_count and scale-stats output of real produced datasets judged by TLC trace specs",
-        text="The real readable_count is run on every count 0..20000, +-300 around m*1024^k (m in {1,10,100,1000,1024}, k <= 6), powers of two up to 2^70 +- 2 and a stride sample; the tokenised string is judged by TLC against the contract (digits[.digit] SP prefix; >= 2 significant digits when count >= 10; <= 6 characters up to 2^60; within half a unit of the last shown digit). scale-stats is run after real conversions (unsharded and sharded) and its stdout, tokenised losslessly, is judged by Trace_Pipeline against the chunk files / minishard entries actually on disk and the decoded sizes (per scale and totals).",
+        text="The real readable_count is run on every count 0..20000, +-300 around m*1024^k (m in {1,10,100,1000,1024}, k <= 6), powers of two up to 2^70 +- 2 and a stride sample; the tokenised string is judged by TLC against the contract (digits[.digit] SP prefix; >= 2 significant digits when count >= 10; <= 6 characters up to 2^60; within half a unit of the last shown digit). scale-stats is run after real conversions (unsharded and sharded) and its stdout, tokenised losslessly, is judged by Trace_Pipeline against the chunk files / minishard entries actually on disk and the decoded sizes (per scale and totals). Report programs cover axes of size 1, n*chunk-1, n*chunk, n*chunk+1 and infos with several chunk sizes per scale (one line per chunking, totals over all).",
         note=TRUST + "; chunk counts are compared for completely produced scales; sizes through the shown string within rounding distance."),
 }
 
